@@ -315,7 +315,7 @@ theorem eventTrigger_ok (hR : NoRaise sc) (hC : NoCmds sc) (hWF : cfg.WF)
     · obtain ⟨sb, g, e, f, l, a⟩ := runFinalize_ok sub sc cfg hR hC ⟨m, tag⟩ s
       simp only [hst, Accepts] at a
       refine ⟨some false, sb, src, g, ?_, f.toFrame', by rw [f.mstate, hsame], l, hreg, ?_⟩
-      · simp [eventTrigger, hst, hsd, hc, hig, guarded, e, outRes]
+      · simp [eventTrigger, hst, hsd, hc, hig, guarded, exceptClause, finallyClause, e, outRes]
       · intro rest
         simp [expectEvent, hev, hc, hig, C01.andThen, a, outItem]
     · cases hex : cfg.onException with
@@ -323,7 +323,7 @@ theorem eventTrigger_ok (hR : NoRaise sc) (hC : NoCmds sc) (hWF : cfg.WF)
         obtain ⟨sb, g, e, f, l, a⟩ := runFinalize_ok sub sc cfg hR hC ⟨m, tag⟩ s
         simp only [hst, Accepts] at a
         refine ⟨none, sb, src, g, ?_, f.toFrame', by rw [f.mstate, hsame], l, hreg, ?_⟩
-        · simp [eventTrigger, hst, hsd, hc, hig, guarded, hex, e, outRes]
+        · simp [eventTrigger, hst, hsd, hc, hig, guarded, exceptClause, finallyClause, hex, e, outRes]
         · intro rest
           simp [expectEvent, hev, hc, hig, hex, C01.andThen, a, outItem]
       | cons h0 hs =>
@@ -331,7 +331,7 @@ theorem eventTrigger_ok (hR : NoRaise sc) (hC : NoCmds sc) (hWF : cfg.WF)
         obtain ⟨sb, g, e, f, l, a⟩ := runFinalize_ok sub sc cfg hR hC ⟨m, tag⟩ sa
         simp only [f0.stateOf, hst, Accepts] at a a0
         refine ⟨some false, sb, src, g0 ++ g, ?_, (f0.trans f).toFrame', by rw [f.mstate, f0.mstate, hsame], ?_, hreg, ?_⟩
-        · simp [eventTrigger, hst, hsd, hc, hig, guarded, hex, e0, Res.bind, e, outRes]
+        · simp [eventTrigger, hst, hsd, hc, hig, guarded, exceptClause, finallyClause, hex, e0, Res.bind, e, outRes]
         · rw [l, l0]; simp
         · intro rest
           simp [expectEvent, hev, hc, hig, hex, C01.andThen, List.append_assoc, a0, a, outItem]
@@ -349,7 +349,7 @@ theorem eventTrigger_ok (hR : NoRaise sc) (hC : NoCmds sc) (hWF : cfg.WF)
       | some st' => simp [St.stateOf, m2, applyTo, alookup_aset_self]
     simp only [hst, hst1, hst2, Accepts] at a a1 a2
     refine ⟨some r.isSome, sb, r.getD src, g1 ++ g2 ++ g, ?_, (f1.toFrame'.trans f2).trans f.toFrame', ?_, ?_, ?_, ?_⟩
-    · simp [eventTrigger, hst, hsd, hc, eventProcess, e1, Res.bind, e2, guarded, e, outRes]
+    · simp [eventTrigger, hst, hsd, hc, eventProcess, e1, Res.bind, e2, guarded, exceptClause, finallyClause, e, outRes]
     · rw [f.mstate, m2, f1.mstate]
       cases r with
       | none => simp [applyTo, hsame]
